@@ -855,6 +855,16 @@ void Ports::refreshMagic()
     elms = ports.size();
 }
 
+#ifdef RTOSC_VERIF
+void Ports::verif_tables(std::vector<int> &pos, std::vector<int> &assoc,
+                         std::vector<int> &remap) const
+{
+    pos   = impl->pos;
+    assoc = impl->assoc;
+    remap = impl->remap;
+}
+#endif
+
 ClonePorts::ClonePorts(const Ports &ports_,
         std::initializer_list<ClonePort> c)
     :Ports({})
